@@ -287,7 +287,7 @@ def run(ctx):
         # (iterative compiled solver, not part of /repo): out of scope
         keys = sorted(k for k in nmodel.models_available if k != "sneddon_spher")
         ctx.extra["models"] = keys
-        ctx.hypothesis(st_case(keys), check_case, ctx.scale(8000, 800000), label="contract")
+        ctx.hypothesis(st_case(keys), check_case, ctx.scale(8000, 400000), label="contract")
     finally:
         hmodels.deregister_all(mods)
 
